@@ -600,40 +600,70 @@ Proof.
   - right. exists d, b. split; [exact H1|]. split; [|exact H3]. rewrite (H d); [exact H2|right; exact H1].
 Qed.
 
+(* the invocation a segment runs under: i, or i without -f / interaction when its destination is an output this
+   command wrote for another input (a937acd) *)
+Definition sim (i i' : inv) : Prop := i' = i \/ i' = no_ovw i.
+
+Lemma sim_refl : forall i, sim i i.
+Proof. intros i. left. reflexivity. Qed.
+
+Lemma inv_for_sim : forall i own s src d, sim i (inv_for i own s src d).
+Proof.
+  intros i own s src d. unfold inv_for. destruct d; try apply sim_refl.
+  destruct (own_refused own s src p); [right; reflexivity|apply sim_refl].
+Qed.
+
+Lemma inv_for_nil : forall i s src d, inv_for i [] s src d = i.
+Proof.
+  intros i s src d. unfold inv_for, own_refused. destruct d; try reflexivity.
+  cbn [existsb]. rewrite andb_false_r. reflexivity.
+Qed.
+
+Lemma sim_mode : forall i i', sim i i' -> i_mode i' = i_mode i.
+Proof. intros i i' [H|H]; subst; reflexivity. Qed.
+
+Lemma sim_codec_own : forall i i' d v, sim i i' -> codec i' (DOwn d) v = codec i (DOwn d) v.
+Proof.
+  intros i i' d v [H|H]; subst; [reflexivity|]. unfold codec. cbn [no_ovw i_mode i_force is_stdout andb].
+  destruct (i_mode i); try reflexivity; rewrite andb_false_r; reflexivity.
+Qed.
+
+Lemma sim_excl : forall i i', sim i i' -> i_excl i' = i_excl i.
+Proof. intros i i' [H|H]; subst; reflexivity. Qed.
+
 (* every segment avoids prot as long as Q holds at its start (s0: the state links are compared with) *)
 Lemma loop_avoid_if : forall i rm dof vs s0 (prot : path -> Prop) (Q : fs -> Prop),
   local_to prot Q ->
-  forall srcs s err ops e,
+  forall srcs own s err ops e,
   (forall src' d', In src' srcs -> dof src' = Some d' ->
-     forall s' ops r, Q s' -> lsub s0 s' -> file_ops i rm s' src' d' (vs src') = (ops, r) -> Forall (avoids prot) ops) ->
+     forall i' s' ops r, sim i i' -> Q s' -> lsub s0 s' -> file_ops i' rm s' src' d' (vs src') = (ops, r) -> Forall (avoids prot) ops) ->
   Q s -> lsub s0 s ->
-  loop i rm dof vs srcs s err = (ops, e) ->
+  loop i rm dof vs own srcs s err = (ops, e) ->
   all_pref (fun s h => Q s /\ Q (unlinked h s)) ops s None /\
   (forall q, prot q -> run ops s q = s q) /\
   h_unprot prot (run_h ops None).
 Proof.
-  intros i rm dof vs s0 prot Q Hloc. induction srcs as [|src tl IH]; intros s err ops e Hav HQ HL H; cbn [loop] in H.
+  intros i rm dof vs s0 prot Q Hloc. induction srcs as [|src tl IH]; intros own s err ops e Hav HQ HL H; cbn [loop] in H.
   - inv_pair H. cbn [all_pref]. split; [|split; [reflexivity|exact I]]. repeat split; assumption.
   - destruct (dof src) as [d|] eqn:Ed.
     2:{ eapply IH; [|exact HQ|exact HL|exact H]. intros a b Ha Hb. apply Hav; [right; exact Ha|exact Hb]. }
-    destruct (file_ops i rm s src d (vs src)) as [ops1 r] eqn:Ef.
-    pose proof (Hav src d (or_introl eq_refl) Ed s ops1 r HQ HL Ef) as Hav1.
+    destruct (file_ops (inv_for i own s src d) rm s src d (vs src)) as [ops1 r] eqn:Ef.
+    pose proof (Hav src d (or_introl eq_refl) Ed _ s ops1 r (inv_for_sim i own s src d) HQ HL Ef) as Hav1.
     destruct (avoid_all_pref prot Q Hloc ops1 s None HQ I Hav1) as [A1 [A2 A3]].
-    assert (Rest : forall b, loop i rm dof vs tl (run ops1 s) b = loop i rm dof vs tl (run ops1 s) b) by reflexivity.
     destruct r as [| |n].
     3:{ inv_pair H. split; [|split]; assumption. }
-    + destruct (loop i rm dof vs tl (run ops1 s) (err || is_fail FOk)) as [ops2 e2] eqn:El.
+    + destruct (loop i rm dof vs _ tl (run ops1 s) (err || is_fail FOk)) as [ops2 e2] eqn:El.
       assert (HQ1 : Q (run ops1 s)) by (apply (all_pref_end _ _ _ _ A1)).
-      destruct (IH (run ops1 s) _ ops2 e2 (fun a b Ha => Hav a b (or_intror Ha)) HQ1 (lsub_run _ _ _ HL) El) as [B1 [B2 B3]].
+      destruct (IH _ (run ops1 s) _ ops2 e2 (fun a b Ha => Hav a b (or_intror Ha)) HQ1 (lsub_run _ _ _ HL) El) as [B1 [B2 B3]].
       inv_pair H.
       split; [|split].
       * apply all_pref_app. split; [exact A1|].
         rewrite (file_ops_h_none _ _ _ _ _ _ _ _ Ef) by (intros n; discriminate). exact B1.
       * intros q Hq. rewrite run_app. rewrite B2 by exact Hq. apply A2. exact Hq.
       * rewrite run_h_app. rewrite (file_ops_h_none _ _ _ _ _ _ _ _ Ef) by (intros n; discriminate). exact B3.
-    + destruct (loop i rm dof vs tl (run ops1 s) (err || is_fail FFail)) as [ops2 e2] eqn:El.
+    + destruct (loop i rm dof vs _ tl (run ops1 s) (err || is_fail FFail)) as [ops2 e2] eqn:El.
       assert (HQ1 : Q (run ops1 s)) by (apply (all_pref_end _ _ _ _ A1)).
-      destruct (IH (run ops1 s) _ ops2 e2 (fun a b Ha => Hav a b (or_intror Ha)) HQ1 (lsub_run _ _ _ HL) El) as [B1 [B2 B3]].
+      destruct (IH _ (run ops1 s) _ ops2 e2 (fun a b Ha => Hav a b (or_intror Ha)) HQ1 (lsub_run _ _ _ HL) El) as [B1 [B2 B3]].
       inv_pair H.
       split; [|split].
       * apply all_pref_app. split; [exact A1|].
@@ -666,54 +696,60 @@ Lemma keeps_local : forall org od (f0 : file), local_to (prot0 org od) (fun s =>
 Proof. intros org od f0 s s' H H1. rewrite (H org); [exact H1|left; reflexivity]. Qed.
 
 (* the tracked source src0 (a regular file, not a link) with its own destination p0 (not a link) *)
+Lemma sim_sound : forall rel i i' b v, sim i i' -> verdict_sound rel i b v -> verdict_sound rel i' b v.
+Proof.
+  intros rel i i' b v Hsim H d chunks E. rewrite (sim_codec_own i i' d v Hsim) in E. exact (H d chunks E).
+Qed.
+
 Lemma loop_own : forall rel i rm dof vs s0 src0 f0 p0,
   src0 <> p0 -> dof src0 = Some (DOwn p0) -> is_lnk (s0 p0) = false -> verdict_sound rel i (f_bytes f0) (vs src0) ->
-  forall srcs s err ops e,
+  forall srcs own s err ops e,
   NoDup srcs ->
   (forall src' d', In src' srcs -> src' <> src0 -> dof src' = Some d' ->
-     forall s' ops r, lsub s0 s' -> file_ops i rm s' src' d' (vs src') = (ops, r) ->
+     forall i' s' ops r, sim i i' -> lsub s0 s' -> file_ops i' rm s' src' d' (vs src') = (ops, r) ->
                       Forall (avoids (prot0 src0 (Some p0))) ops) ->
   s src0 = Reg f0 -> lsub s0 s ->
-  loop i rm dof vs srcs s err = (ops, e) ->
+  loop i rm dof vs own srcs s err = (ops, e) ->
   all_pref (safe2 rel src0 (f_bytes f0) (Some p0)) ops s None.
 Proof.
   intros rel i rm dof vs s0 src0 f0 p0 Hne Hd0 Hpl Hsound.
-  induction srcs as [|src tl IH]; intros s err ops e Hnd Hav Hs HL H; cbn [loop] in H.
+  induction srcs as [|src tl IH]; intros own s err ops e Hnd Hav Hs HL H; cbn [loop] in H.
   - inv_pair H. cbn [all_pref unlinked]. split; [|exact I].
     split; left; exists f0; split; auto.
   - inversion Hnd as [|? ? Hnotin Hnd']; subst.
     destruct (dof src) as [d|] eqn:Ed.
     2:{ eapply IH; [exact Hnd'| |exact Hs|exact HL|exact H]. intros a b Ha. apply Hav. right. exact Ha. }
-    destruct (file_ops i rm s src d (vs src)) as [ops1 r] eqn:Ef.
+    destruct (file_ops (inv_for i own s src d) rm s src d (vs src)) as [ops1 r] eqn:Ef.
+    pose proof (inv_for_sim i own s src d) as Hsim.
     destruct (path_eq_dec src src0) as [E|E].
     + (* the tracked source itself *)
       subst src. rewrite Hd0 in Ed. inversion Ed; subst d.
       assert (Hpl' : is_lnk (s p0) = false).
       { destruct (s p0) eqn:X; try reflexivity. apply HL in X. rewrite X in Hpl. discriminate Hpl. }
-      destruct (own_file_safe rel i rm s src0 p0 (vs src0) f0 ops1 r Hs Hne Hpl' Hsound Ef) as [A1 A2].
+      destruct (own_file_safe rel _ rm s src0 p0 (vs src0) f0 ops1 r Hs Hne Hpl' (sim_sound _ _ _ _ _ Hsim Hsound) Ef) as [A1 A2].
       assert (Htl : forall src' d', In src' tl -> dof src' = Some d' ->
-                forall s' ops r, safe rel src0 (f_bytes f0) (Some p0) s' -> lsub s0 s' ->
-                                 file_ops i rm s' src' d' (vs src') = (ops, r) ->
+                forall i' s' ops r, sim i i' -> safe rel src0 (f_bytes f0) (Some p0) s' -> lsub s0 s' ->
+                                 file_ops i' rm s' src' d' (vs src') = (ops, r) ->
                                  Forall (avoids (prot0 src0 (Some p0))) ops).
-      { intros a b Ha Hb s' ops' r' _ HL' Ef'.
+      { intros a b Ha Hb i' s' ops' r' Hsim' _ HL' Ef'.
         assert (Na : a <> src0) by (intro X; subst; contradiction).
-        exact (Hav a b (or_intror Ha) Na Hb s' ops' r' HL' Ef'). }
+        exact (Hav a b (or_intror Ha) Na Hb i' s' ops' r' Hsim' HL' Ef'). }
       destruct r as [| |n].
       3:{ inv_pair H. exact A1. }
-      * destruct (loop i rm dof vs tl (run ops1 s) (err || is_fail FOk)) as [ops2 e2] eqn:El.
+      * destruct (loop i rm dof vs _ tl (run ops1 s) (err || is_fail FOk)) as [ops2 e2] eqn:El.
         assert (HQ1 : safe rel src0 (f_bytes f0) (Some p0) (run ops1 s)) by (apply (all_pref_end _ _ _ _ A1)).
-        destruct (loop_avoid_if i rm dof vs s0 _ _ (safe_local rel src0 (f_bytes f0) (Some p0)) tl _ _ _ _ Htl HQ1
+        destruct (loop_avoid_if i rm dof vs s0 _ _ (safe_local rel src0 (f_bytes f0) (Some p0)) tl _ _ _ _ _ Htl HQ1
                                 (lsub_run _ _ _ HL) El) as [B1 _].
         inv_pair H. apply all_pref_app. split; [exact A1|].
         rewrite A2 by (intros n; discriminate). exact B1.
-      * destruct (loop i rm dof vs tl (run ops1 s) (err || is_fail FFail)) as [ops2 e2] eqn:El.
+      * destruct (loop i rm dof vs _ tl (run ops1 s) (err || is_fail FFail)) as [ops2 e2] eqn:El.
         assert (HQ1 : safe rel src0 (f_bytes f0) (Some p0) (run ops1 s)) by (apply (all_pref_end _ _ _ _ A1)).
-        destruct (loop_avoid_if i rm dof vs s0 _ _ (safe_local rel src0 (f_bytes f0) (Some p0)) tl _ _ _ _ Htl HQ1
+        destruct (loop_avoid_if i rm dof vs s0 _ _ (safe_local rel src0 (f_bytes f0) (Some p0)) tl _ _ _ _ _ Htl HQ1
                                 (lsub_run _ _ _ HL) El) as [B1 _].
         inv_pair H. apply all_pref_app. split; [exact A1|].
         rewrite A2 by (intros n; discriminate). exact B1.
     + (* another source: it leaves src0 and p0 alone *)
-      pose proof (Hav src d (or_introl eq_refl) E Ed s ops1 r HL Ef) as Hav1.
+      pose proof (Hav src d (or_introl eq_refl) E Ed _ s ops1 r Hsim HL Ef) as Hav1.
       destruct (avoid_all_pref _ _ (keeps_local src0 (Some p0) f0) ops1 s None Hs I Hav1) as [A1 [A2 A3]].
       assert (A1' : all_pref (safe2 rel src0 (f_bytes f0) (Some p0)) ops1 s None).
       { eapply all_pref_impl; [|exact A1]. intros s1 h1 [X Y]. split; left; exists f0; split; auto. }
@@ -721,12 +757,12 @@ Proof.
       { rewrite A2; [exact Hs|left; reflexivity]. }
       destruct r as [| |n].
       3:{ inv_pair H. exact A1'. }
-      * destruct (loop i rm dof vs tl (run ops1 s) (err || is_fail FOk)) as [ops2 e2] eqn:El.
-        pose proof (IH _ _ _ _ Hnd' (fun a b Ha => Hav a b (or_intror Ha)) Hs1 (lsub_run _ _ _ HL) El) as B1.
+      * destruct (loop i rm dof vs _ tl (run ops1 s) (err || is_fail FOk)) as [ops2 e2] eqn:El.
+        pose proof (IH _ _ _ _ _ Hnd' (fun a b Ha => Hav a b (or_intror Ha)) Hs1 (lsub_run _ _ _ HL) El) as B1.
         inv_pair H. apply all_pref_app. split; [exact A1'|].
         rewrite (file_ops_h_none _ _ _ _ _ _ _ _ Ef) by (intros n; discriminate). exact B1.
-      * destruct (loop i rm dof vs tl (run ops1 s) (err || is_fail FFail)) as [ops2 e2] eqn:El.
-        pose proof (IH _ _ _ _ Hnd' (fun a b Ha => Hav a b (or_intror Ha)) Hs1 (lsub_run _ _ _ HL) El) as B1.
+      * destruct (loop i rm dof vs _ tl (run ops1 s) (err || is_fail FFail)) as [ops2 e2] eqn:El.
+        pose proof (IH _ _ _ _ _ Hnd' (fun a b Ha => Hav a b (or_intror Ha)) Hs1 (lsub_run _ _ _ HL) El) as B1.
         inv_pair H. apply all_pref_app. split; [exact A1'|].
         rewrite (file_ops_h_none _ _ _ _ _ _ _ _ Ef) by (intros n; discriminate). exact B1.
 Qed.
@@ -799,16 +835,16 @@ Lemma exit_of_nomod : forall e, Forall nomod (exit_of e).
 Proof. intros [[|]|n]; cbn [exit_of]; repeat constructor. Qed.
 
 (* when nothing may modify the key org, the data stays where it is during the whole loop *)
-Lemma loop_untouched : forall rel i rm dof vs s0 org b0 od srcs s err ops e,
+Lemma loop_untouched : forall rel i rm dof vs s0 org b0 od srcs own s err ops e,
   (forall src' d', In src' srcs -> dof src' = Some d' ->
-     forall s' ops r, lsub s0 s' -> file_ops i rm s' src' d' (vs src') = (ops, r) -> Forall (avoids (eq org)) ops) ->
+     forall i' s' ops r, sim i i' -> lsub s0 s' -> file_ops i' rm s' src' d' (vs src') = (ops, r) -> Forall (avoids (eq org)) ops) ->
   holds org b0 s -> lsub s0 s ->
-  loop i rm dof vs srcs s err = (ops, e) ->
+  loop i rm dof vs own srcs s err = (ops, e) ->
   all_pref (safe2 rel org b0 od) ops s None /\ holds org b0 (run ops s) /\ h_unprot (eq org) (run_h ops None).
 Proof.
-  intros rel i rm dof vs s0 org b0 od srcs s err ops e Hav Hh HL El.
-  destruct (loop_avoid_if i rm dof vs s0 (eq org) (holds org b0) (holds_local _ _) srcs s err ops e
-              (fun a b Ha Hb s' o r _ L E => Hav a b Ha Hb s' o r L E) Hh HL El) as [Q1 [Q2 Q3]].
+  intros rel i rm dof vs s0 org b0 od srcs own s err ops e Hav Hh HL El.
+  destruct (loop_avoid_if i rm dof vs s0 (eq org) (holds org b0) (holds_local _ _) srcs own s err ops e
+              (fun a b Ha Hb i' s' o r Hsim _ L E => Hav a b Ha Hb i' s' o r Hsim L E) Hh HL El) as [Q1 [Q2 Q3]].
   split; [|split].
   - eapply all_pref_impl; [|exact Q1]. intros s1 h1 X. apply holds_safe2. exact X.
   - apply (all_pref_end _ _ _ _ Q1).
@@ -842,8 +878,8 @@ Proof.
     rewrite Hd.
     assert (Hsegs : forall dof, (forall b, dof b = dsel_of i names b) \/ (exists t, (forall b, dof b = Some (DShared t)) /\ org <> t) ->
               forall src' d', In src' names -> dof src' = Some d' ->
-              forall s' ops r, lsub s0 s' -> file_ops i false s' src' d' (vs src') = (ops, r) -> Forall (avoids (eq org)) ops).
-    { intros dof Hdof src' d' Hin' Ed' s' ops r HL Ef.
+              forall i' s' ops r, sim i i' -> lsub s0 s' -> file_ops i' false s' src' d' (vs src') = (ops, r) -> Forall (avoids (eq org)) ops).
+    { intros dof Hdof src' d' Hin' Ed' i' s' ops r _ HL Ef.
       apply (seg_avoid_from_mod _ _ _ _ _ _ _ _ (eq org) Ef); [intros X; discriminate X|].
       intros q Hq X. subst q. destruct Hdof as [Hdof|[t [Hdof Ht]]].
       - rewrite Hdof in Ed'. apply (Hslots src' d' s' org Hin' Ed' HL Hq). reflexivity.
@@ -864,8 +900,8 @@ Proof.
           rewrite (run_h_open_dst _ _ _ _ _ _ _ _ None Eop).
           apply nomod_tail_safe; [exact P2|exact I|repeat constructor]. }
       assert (Et : t = p) by (apply (in_slot_plain s0 p t Hpl); apply Hot; reflexivity). subst t.
-      destruct (loop i false (fun _ => Some (DShared p)) vs names (run oo s0) false) as [ops e] eqn:El.
-      destruct (loop_untouched rel i false (fun _ => Some (DShared p)) vs s0 org (f_bytes f0) None names _ _ _ _
+      destruct (loop i false (fun _ => Some (DShared p)) vs [] names (run oo s0) false) as [ops e] eqn:El.
+      destruct (loop_untouched rel i false (fun _ => Some (DShared p)) vs s0 org (f_bytes f0) None names _ _ _ _ _
                   (Hsegs _ (or_intror (ex_intro _ p (conj (fun _ => eq_refl) Hp)))) P2 (lsub_run _ _ _ (lsub_refl s0)) El) as [Q1 [Q2 Q3]].
       apply all_pref_app. split; [exact P1|].
       rewrite (run_h_open_dst _ _ _ _ _ _ _ _ None Eop).
@@ -876,8 +912,8 @@ Proof.
         -- intros q E X. cbn [modifies] in E. inversion E. apply Hp. congruence.
         -- apply nomod_avoids. destruct (v_close_ok (vs p)); [apply exit_of_nomod|repeat constructor].
       * apply (untouched_safe rel org (f_bytes f0) None); [exact Q2|exact Q3|constructor].
-    + destruct (loop i false (dsel_of i names) vs names s0 false) as [ops e] eqn:El.
-      destruct (loop_untouched rel i false (dsel_of i names) vs s0 org (f_bytes f0) None names _ _ _ _
+    + destruct (loop i false (dsel_of i names) vs [] names s0 false) as [ops e] eqn:El.
+      destruct (loop_untouched rel i false (dsel_of i names) vs s0 org (f_bytes f0) None names _ _ _ _ _
                   (Hsegs _ (or_introl (fun _ => eq_refl))) Hhold (lsub_refl s0) El) as [Q1 [Q2 Q3]].
       assert (G : forall tl, Forall nomod tl -> all_pref (safe2 rel org (f_bytes f0) None) (ops ++ tl) s0 None).
       { intros tl Htl. apply all_pref_app. split; [exact Q1|].
@@ -885,7 +921,7 @@ Proof.
       destruct (eff_out i names); apply G; destruct e as [b|n]; try constructor;
         destruct (v_close_ok (vs stdoutmark)); try apply exit_of_nomod; repeat constructor.
   - (* one destination per source, stdout, or test *)
-    destruct (loop i (eff_rm i names) (dsel_of i names) vs names s0 false) as [ops e] eqn:El.
+    destruct (loop i (eff_rm i names) (dsel_of i names) vs [] names s0 false) as [ops e] eqn:El.
     destruct (s0 src) as [|fsrc| |t] eqn:Es;
       try (unfold look in Hlook; rewrite Es in Hlook; discriminate Hlook).
     + (* the source is a regular file *)
@@ -897,9 +933,9 @@ Proof.
         assert (Hp : src <> p0) by (apply (Hw2 src src (DOwn p0) p0 Hin Hin Ed0); reflexivity).
         assert (Hpl : is_lnk (s0 p0) = false) by (apply (Hw4 src (DOwn p0) p0 Hin Ed0 eq_refl)).
         assert (Hsegs : forall src' d', In src' names -> src' <> src -> dsel_of i names src' = Some d' ->
-                  forall s' ops r, lsub s0 s' -> file_ops i (eff_rm i names) s' src' d' (vs src') = (ops, r) ->
+                  forall i' s' ops r, sim i i' -> lsub s0 s' -> file_ops i' (eff_rm i names) s' src' d' (vs src') = (ops, r) ->
                                    Forall (avoids (prot0 src (Some p0))) ops).
-        { intros src' d' Hin' Hne' Ed' s' ops' r' HL Ef.
+        { intros src' d' Hin' Hne' Ed' i' s' ops' r' _ HL Ef.
           apply (seg_avoid_from_mod _ _ _ _ _ _ _ _ _ Ef).
           - intros _ _ [X|X]; [exact (Hne' X)|]. inversion X; subst p0.
             exact (Hw2 src' src (DOwn src') src' Hin' Hin Ed0 eq_refl eq_refl).
@@ -912,15 +948,15 @@ Proof.
                 apply dst_of_own. exact Ed'. }
         rewrite Eorg.
         pose proof (loop_own rel i (eff_rm i names) (dsel_of i names) vs s0 src f0 p0 Hp Ed0 Hpl Hsound
-                             names s0 false ops e Hnd Hsegs Es (lsub_refl s0) El) as Q1.
+                             names [] s0 false ops e Hnd Hsegs Es (lsub_refl s0) El) as Q1.
         apply all_pref_app. split; [exact Q1|].
         pose proof (all_pref_end _ _ _ _ Q1) as Hend.
         destruct e as [[|]|n]; cbn [exit_of all_pref apply_op apply_h]; tauto.
       * (* no destination of its own: nothing modifies src *)
         assert (Hsegs : forall src' d', In src' names -> dsel_of i names src' = Some d' ->
-                  forall s' ops r, lsub s0 s' -> file_ops i (eff_rm i names) s' src' d' (vs src') = (ops, r) ->
+                  forall i' s' ops r, sim i i' -> lsub s0 s' -> file_ops i' (eff_rm i names) s' src' d' (vs src') = (ops, r) ->
                                    Forall (avoids (eq org)) ops).
-        { intros src' d' Hin' Ed' s' ops' r' HL Ef.
+        { intros src' d' Hin' Ed' i' s' ops' r' _ HL Ef.
           apply (seg_avoid_from_mod _ _ _ _ _ _ _ _ _ Ef).
           - intros Erm Est X. rewrite Eorg in X. subst src'.
             destruct d' as [|c|p|p].
@@ -929,7 +965,7 @@ Proof.
             + exact (not_concat_not_shared i names src p Ec Ed').
             + unfold dst_of in Hd. rewrite Ed' in Hd. discriminate.
           - intros q Hq X. subst q. apply (Hslots src' d' s' org Hin' Ed' HL Hq). reflexivity. }
-        destruct (loop_untouched rel i (eff_rm i names) (dsel_of i names) vs s0 org (f_bytes f0) None names _ _ _ _
+        destruct (loop_untouched rel i (eff_rm i names) (dsel_of i names) vs s0 org (f_bytes f0) None names _ _ _ _ _
                     Hsegs Hhold (lsub_refl s0) El) as [Q1 [Q2 Q3]].
         apply all_pref_app. split; [exact Q1|].
         apply (untouched_safe rel org (f_bytes f0) None); [exact Q2|exact Q3|apply nomod_avoids; apply exit_of_nomod].
@@ -937,13 +973,13 @@ Proof.
       assert (Eorg : org = t) by (unfold org, target; rewrite Es; reflexivity).
       destruct (Hw5 src t Hin Es) as [Hnotsrc _].
       assert (Hsegs : forall src' d', In src' names -> dsel_of i names src' = Some d' ->
-                forall s' ops r, lsub s0 s' -> file_ops i (eff_rm i names) s' src' d' (vs src') = (ops, r) ->
+                forall i' s' ops r, sim i i' -> lsub s0 s' -> file_ops i' (eff_rm i names) s' src' d' (vs src') = (ops, r) ->
                                  Forall (avoids (eq org)) ops).
-      { intros src' d' Hin' Ed' s' ops' r' HL Ef.
+      { intros src' d' Hin' Ed' i' s' ops' r' _ HL Ef.
         apply (seg_avoid_from_mod _ _ _ _ _ _ _ _ _ Ef).
         - intros _ _ X. apply Hnotsrc. rewrite <- Eorg, X. exact Hin'.
         - intros q Hq X. subst q. apply (Hslots src' d' s' org Hin' Ed' HL Hq). reflexivity. }
-      destruct (loop_untouched rel i (eff_rm i names) (dsel_of i names) vs s0 org (f_bytes f0) (dst_of i names src) names _ _ _ _
+      destruct (loop_untouched rel i (eff_rm i names) (dsel_of i names) vs s0 org (f_bytes f0) (dst_of i names src) names _ _ _ _ _
                   Hsegs Hhold (lsub_refl s0) El) as [Q1 [Q2 Q3]].
       apply all_pref_app. split; [exact Q1|].
       apply (untouched_safe rel org (f_bytes f0) _); [exact Q2|exact Q3|apply nomod_avoids; apply exit_of_nomod].
@@ -1018,9 +1054,10 @@ Proof.
   assert (Hseg : forall rm dof, (rm = true -> rm = eff_rm i names) ->
             (forall src' q, dof src' <> Some (DShared q)) ->
             forall src' d', In src' names -> dof src' = Some d' ->
-            forall s' ops' r', s' p = Reg f -> lsub s0 s' -> file_ops i rm s' src' d' (vs src') = (ops', r') ->
+            forall i' s' ops' r', sim i i' -> s' p = Reg f -> lsub s0 s' -> file_ops i' rm s' src' d' (vs src') = (ops', r') ->
                                Forall (avoids (eq p)) ops').
-  { intros rm dof Hrm Hnsh src' d' Hin' Ed' s' ops' r' Hs' _ Ef.
+  { intros rm dof Hrm Hnsh src' d' Hin' Ed' i' s' ops' r' Hsim Hs' _ Ef.
+    assert (Hovw' : ovw i' = false) by (destruct Hsim as [X|X]; subst i'; [exact Hovw|reflexivity]).
     assert (Hun : rm = true -> is_stdin src' = false -> ~ p = src').
     { intros Erm _ X. subst src'. destruct Hsrc as [Hn|Hn]; [contradiction|rewrite (Hrm Erm) in Erm; congruence]. }
     destruct d' as [|c|q|q].
@@ -1028,7 +1065,7 @@ Proof.
     - apply (seg_avoid_from_mod _ _ _ _ _ _ _ _ _ Ef Hun). intros q0 Hq. cbn [dslots] in Hq. contradiction.
     - exfalso. exact (Hnsh src' q Ed').
     - destruct (look s' q) as [|fq| |tq] eqn:El.
-      2:{ apply nomod_avoids. exact (file_ops_refused _ _ _ _ _ _ _ _ _ El Hovw Ef). }
+      2:{ apply nomod_avoids. exact (file_ops_refused _ _ _ _ _ _ _ _ _ El Hovw' Ef). }
       all: apply (seg_avoid_from_mod _ _ _ _ _ _ _ _ _ Ef Hun);
         intros q0 Hq X; subst q0; destruct Hq as [Hq|Hq];
         [subst q; unfold look in El; rewrite Hs' in El; discriminate El
@@ -1036,16 +1073,16 @@ Proof.
   destruct (is_concat i names) eqn:Ec.
   - destruct (concat_shared i names Ec) as [[q [Eo Hsh]]|[Eo Hsh]]; rewrite Eo.
     + rewrite Hovw. apply Triv.
-    + destruct (loop i false (dsel_of i names) vs names s0 false) as [ops e] eqn:El.
+    + destruct (loop i false (dsel_of i names) vs [] names s0 false) as [ops e] eqn:El.
       assert (Hns : forall src' q, dsel_of i names src' <> Some (DShared q)) by (intros src' q; rewrite Hsh; discriminate).
       destruct (loop_avoid_if i false (dsel_of i names) vs s0 (eq p) (fun s => s p = Reg f) Hloc
-                  names s0 false ops e (Hseg false _ (fun X => False_ind _ (Bool.diff_false_true X)) Hns) Hs (lsub_refl s0) El) as [Q1 [_ Q3]].
+                  names [] s0 false ops e (Hseg false _ (fun X => False_ind _ (Bool.diff_false_true X)) Hns) Hs (lsub_refl s0) El) as [Q1 [_ Q3]].
       apply Tail; [exact Q1|exact Q3|].
       destruct e as [b|n]; [|constructor].
       destruct (v_close_ok (vs stdoutmark)); [apply exit_of_nomod|repeat constructor].
-  - destruct (loop i (eff_rm i names) (dsel_of i names) vs names s0 false) as [ops e] eqn:El.
+  - destruct (loop i (eff_rm i names) (dsel_of i names) vs [] names s0 false) as [ops e] eqn:El.
     destruct (loop_avoid_if i (eff_rm i names) (dsel_of i names) vs s0 (eq p) (fun s => s p = Reg f) Hloc
-                names s0 false ops e (Hseg _ _ (fun _ => eq_refl) (fun a q => not_concat_not_shared i names a q Ec)) Hs (lsub_refl s0) El) as [Q1 [_ Q3]].
+                names [] s0 false ops e (Hseg _ _ (fun _ => eq_refl) (fun a q => not_concat_not_shared i names a q Ec)) Hs (lsub_refl s0) El) as [Q1 [_ Q3]].
     apply Tail; [exact Q1|exact Q3|apply exit_of_nomod].
 Qed.
 
@@ -1127,23 +1164,23 @@ Qed.
 Definition unl_in (rm : bool) (srcs : list path) (o : op) : Prop :=
   is_unlink_src o = false \/ exists src, In src srcs /\ o = OUnlinkSrc src /\ rm = true /\ is_stdin src = false.
 
-Lemma loop_unl : forall i rm dof vs srcs s err ops e,
-  loop i rm dof vs srcs s err = (ops, e) -> Forall (unl_in rm srcs) ops.
+Lemma loop_unl : forall i rm dof vs srcs own s err ops e,
+  loop i rm dof vs own srcs s err = (ops, e) -> Forall (unl_in rm srcs) ops.
 Proof.
-  intros i rm dof vs. induction srcs as [|src tl IH]; intros s err ops e H; cbn [loop] in H.
+  intros i rm dof vs. induction srcs as [|src tl IH]; intros own s err ops e H; cbn [loop] in H.
   - inv_pair H. constructor.
   - assert (Up : forall l, Forall (unl_in rm tl) l -> Forall (unl_in rm (src :: tl)) l).
     { intros l Hl. eapply Forall_impl; [|exact Hl]. intros o [Ho|[a [Ha Hb]]]; [left; exact Ho|].
       right. exists a. split; [right; exact Ha|exact Hb]. }
     destruct (dof src) as [d|]; [|apply Up; eapply IH; exact H].
-    destruct (file_ops i rm s src d (vs src)) as [ops1 r] eqn:Ef.
+    destruct (file_ops (inv_for i own s src d) rm s src d (vs src)) as [ops1 r] eqn:Ef.
     assert (H1 : Forall (unl_in rm (src :: tl)) ops1).
     { eapply Forall_impl; [|exact (file_ops_unl _ _ _ _ _ _ _ _ Ef)]. intros o [Ho|[Ho1 [Ho2 [Ho3 _]]]]; [left; exact Ho|].
       right. exists src. split; [left; reflexivity|repeat split; assumption]. }
     destruct r as [| |n].
-    + destruct (loop i rm dof vs tl (run ops1 s) (err || is_fail FOk)) as [ops2 e2] eqn:El.
+    + destruct (loop i rm dof vs _ tl (run ops1 s) (err || is_fail FOk)) as [ops2 e2] eqn:El.
       inv_pair H. apply Forall_app. split; [exact H1|apply Up; eapply IH; exact El].
-    + destruct (loop i rm dof vs tl (run ops1 s) (err || is_fail FFail)) as [ops2 e2] eqn:El.
+    + destruct (loop i rm dof vs _ tl (run ops1 s) (err || is_fail FFail)) as [ops2 e2] eqn:El.
       inv_pair H. apply Forall_app. split; [exact H1|apply Up; eapply IH; exact El].
     + inv_pair H. exact H1.
 Qed.
@@ -1165,9 +1202,9 @@ Proof.
   destruct (dict_check i s vs) as [n|]; [destruct H as [H|[]]; discriminate H|].
   destruct (is_concat i names) eqn:Ec.
   - exfalso. destruct (eff_out i names) as [| |p|d].
-    1,2,4: destruct (loop i false (dsel_of i names) vs names s false) as [ops e] eqn:El;
+    1,2,4: destruct (loop i false (dsel_of i names) vs [] names s false) as [ops e] eqn:El;
       apply in_app_or in H; destruct H as [H|H];
-      [destruct (F false ops (loop_unl _ _ _ _ _ _ _ _ _ El) H) as [_ [X _]]; discriminate X
+      [destruct (F false ops (loop_unl _ _ _ _ _ _ _ _ _ _ El) H) as [_ [X _]]; discriminate X
       |destruct e as [b|n]; [destruct (v_close_ok (vs stdoutmark)); [destruct b|]|]; cbn in H; intuition discriminate].
     destruct (ovw i); [|destruct H as [H|[]]; discriminate H].
     destruct (open_dst true s (vs p) None p false) as [oo ot] eqn:Eo.
@@ -1175,15 +1212,15 @@ Proof.
     assert (Hoo' : ~ In (OUnlinkSrc q) oo).
     { intros X. rewrite Forall_forall in Hoo. destruct (Hoo _ X) as [Y|[_ [Y _]]]; discriminate Y. }
     destruct ot as [t|].
-    + destruct (loop i false (fun _ => Some (DShared t)) vs names (run oo s) false) as [ops e] eqn:El.
+    + destruct (loop i false (fun _ => Some (DShared t)) vs [] names (run oo s) false) as [ops e] eqn:El.
       apply in_app_or in H. destruct H as [H|H]; [exact (Hoo' H)|].
       apply in_app_or in H. destruct H as [H|H].
-      * destruct (F false ops (loop_unl _ _ _ _ _ _ _ _ _ El) H) as [_ [X _]]. discriminate X.
+      * destruct (F false ops (loop_unl _ _ _ _ _ _ _ _ _ _ El) H) as [_ [X _]]. discriminate X.
       * destruct e as [b|n]; [destruct (v_close_ok (vs p)); [destruct b|]|]; cbn in H; intuition discriminate.
     + apply in_app_or in H. destruct H as [H|H]; [exact (Hoo' H)|]. destruct H as [H|[]]. discriminate H.
-  - destruct (loop i (eff_rm i names) (dsel_of i names) vs names s false) as [ops e] eqn:El.
+  - destruct (loop i (eff_rm i names) (dsel_of i names) vs [] names s false) as [ops e] eqn:El.
     apply in_app_or in H. destruct H as [H|H].
-    + destruct (F _ ops (loop_unl _ _ _ _ _ _ _ _ _ El) H) as [A [B C]]. repeat split; assumption.
+    + destruct (F _ ops (loop_unl _ _ _ _ _ _ _ _ _ _ El) H) as [A [B C]]. repeat split; assumption.
     + exfalso. destruct e as [[|]|n]; cbn in H; intuition discriminate.
 Qed.
 
@@ -1460,7 +1497,7 @@ Proof.
   destruct (dict_check i s vs) as [n|] eqn:Ed.
   { right. exists n. split; [exact (dict_check_nonzero _ _ _ _ Ed)|]. split; [reflexivity|]. right. left. repeat constructor. }
   rewrite one_not_concat. cbn [loop].
-  apply dst_of_own in Hd. rewrite Hd.
+  apply dst_of_own in Hd. rewrite Hd. rewrite inv_for_nil.
   destruct (file_ops i (eff_rm i [src]) s src (DOwn d) (vs src)) as [ops1 r] eqn:Ef.
   pose proof (file_ops_outcome _ _ _ _ _ _ _ _ Hne Hpl Hart Ef) as Ho.
   assert (RunExit : forall n q, run (ops1 ++ [OExit n]) s q = run ops1 s q).
@@ -1531,19 +1568,19 @@ Qed.
 
 Lemma loop_nomod : forall i dof vs,
   (forall src d, dof src = Some d -> d = DTest \/ exists c, d = DStdout c) ->
-  forall srcs s err ops e, loop i false dof vs srcs s err = (ops, e) -> Forall nomod ops.
+  forall srcs own s err ops e, loop i false dof vs own srcs s err = (ops, e) -> Forall nomod ops.
 Proof.
-  intros i dof vs Hdof. induction srcs as [|src tl IH]; intros s err ops e H; cbn [loop] in H.
+  intros i dof vs Hdof. induction srcs as [|src tl IH]; intros own s err ops e H; cbn [loop] in H.
   - inv_pair H. constructor.
   - destruct (dof src) as [d|] eqn:Ed; [|eapply IH; exact H].
-    destruct (file_ops i false s src d (vs src)) as [ops1 r] eqn:Ef.
+    destruct (file_ops (inv_for i own s src d) false s src d (vs src)) as [ops1 r] eqn:Ef.
     assert (H1 : Forall nomod ops1).
-    { apply (file_ops_nomod i s src d (vs src) ops1 r); [|exact Ef].
+    { apply (file_ops_nomod (inv_for i own s src d) s src d (vs src) ops1 r); [|exact Ef].
       intros q X. destruct (Hdof src d Ed) as [E|[c E]]; subst d; exact X. }
     destruct r as [| |n].
-    + destruct (loop i false dof vs tl (run ops1 s) (err || is_fail FOk)) as [ops2 e2] eqn:El.
+    + destruct (loop i false dof vs _ tl (run ops1 s) (err || is_fail FOk)) as [ops2 e2] eqn:El.
       inv_pair H. apply Forall_app. split; [exact H1|eapply IH; exact El].
-    + destruct (loop i false dof vs tl (run ops1 s) (err || is_fail FFail)) as [ops2 e2] eqn:El.
+    + destruct (loop i false dof vs _ tl (run ops1 s) (err || is_fail FFail)) as [ops2 e2] eqn:El.
       inv_pair H. apply Forall_app. split; [exact H1|eapply IH; exact El].
     + inv_pair H. exact H1.
 Qed.
@@ -1567,11 +1604,11 @@ Proof.
   destruct (is_concat i names) eqn:Ec.
   - destruct (concat_shared i names Ec) as [[p [Eo Hsh]]|[Eo Hsh]]; rewrite Eo.
     + exfalso. destruct (Hd (@nil N) _ (Hsh [])) as [X|[c X]]; discriminate X.
-    + destruct (loop i false (dsel_of i names) vs names s false) as [ops e] eqn:El.
-      apply Forall_app. split; [exact (loop_nomod i _ vs Hd _ _ _ _ _ El)|].
+    + destruct (loop i false (dsel_of i names) vs [] names s false) as [ops e] eqn:El.
+      apply Forall_app. split; [exact (loop_nomod i _ vs Hd _ _ _ _ _ _ El)|].
       destruct e as [b|n]; [|constructor]. destruct (v_close_ok (vs stdoutmark)); [apply exit_of_nomod|repeat constructor].
-  - rewrite Erm. destruct (loop i false (dsel_of i names) vs names s false) as [ops e] eqn:El.
-    apply Forall_app. split; [exact (loop_nomod i _ vs Hd _ _ _ _ _ El)|apply exit_of_nomod].
+  - rewrite Erm. destruct (loop i false (dsel_of i names) vs [] names s false) as [ops e] eqn:El.
+    apply Forall_app. split; [exact (loop_nomod i _ vs Hd _ _ _ _ _ _ El)|apply exit_of_nomod].
 Qed.
 
 (* a missing / non-regular / unreadable dictionary (-D, --patch-from): the run ends with a non-zero status before any
@@ -1628,7 +1665,7 @@ Proof.
   assert (Ep : pre i ls s = inr [src]).
   { rewrite <- Hs. apply (pre_names i ls s src). rewrite Hs. left. reflexivity. }
   rewrite Ep. unfold fio_main. rewrite Hdc. rewrite one_not_concat. cbn [loop].
-  apply dst_of_own in Hd. rewrite Hd.
+  apply dst_of_own in Hd. rewrite Hd. rewrite inv_for_nil.
   assert (Hpl : is_lnk (s d) = false).
   { destruct Hdst as [X|[[fd X] _]]; rewrite X; reflexivity. }
   assert (Hsf : same_file s src d = false).
@@ -1709,17 +1746,17 @@ Qed.
 
 (* ------------------------------------------------------------------ several sources: each one's fate is decided by its own segment *)
 
-Lemma loop_err_false : forall i rm dof vs srcs s err ops,
-  loop i rm dof vs srcs s err = (ops, inl false) -> err = false.
+Lemma loop_err_false : forall i rm dof vs srcs own s err ops,
+  loop i rm dof vs own srcs s err = (ops, inl false) -> err = false.
 Proof.
-  intros i rm dof vs. induction srcs as [|src tl IH]; intros s err ops H; cbn [loop] in H.
+  intros i rm dof vs. induction srcs as [|src tl IH]; intros own s err ops H; cbn [loop] in H.
   - inversion H. reflexivity.
   - destruct (dof src) as [d|].
-    + destruct (file_ops i rm s src d (vs src)) as [ops1 r].
+    + destruct (file_ops (inv_for i own s src d) rm s src d (vs src)) as [ops1 r].
       destruct r as [| |n]; try discriminate H.
-      * destruct (loop i rm dof vs tl (run ops1 s) (err || is_fail FOk)) as [ops2 e2] eqn:El.
+      * destruct (loop i rm dof vs _ tl (run ops1 s) (err || is_fail FOk)) as [ops2 e2] eqn:El.
         inversion H; subst. apply IH in El. apply orb_false_iff in El. apply El.
-      * destruct (loop i rm dof vs tl (run ops1 s) (err || is_fail FFail)) as [ops2 e2] eqn:El.
+      * destruct (loop i rm dof vs _ tl (run ops1 s) (err || is_fail FFail)) as [ops2 e2] eqn:El.
         inversion H; subst. apply IH in El. apply orb_false_iff in El. destruct El as [_ X]. discriminate X.
     + apply IH in H. discriminate H.
 Qed.
@@ -1730,81 +1767,81 @@ Proof. intros prot s s' _ _. exact I. Qed.
 (* where the segment of a tracked source sits in the run *)
 Lemma loop_track : forall i rm dof vs s0 src0 d0 (prot : path -> Prop),
   dof src0 = Some d0 ->
-  forall srcs s err ops e,
+  forall srcs own s err ops e,
   NoDup srcs -> In src0 srcs ->
   (forall src' d', In src' srcs -> src' <> src0 -> dof src' = Some d' ->
-     forall s' ops r, lsub s0 s' -> file_ops i rm s' src' d' (vs src') = (ops, r) -> Forall (avoids prot) ops) ->
+     forall i' s' ops r, sim i i' -> lsub s0 s' -> file_ops i' rm s' src' d' (vs src') = (ops, r) -> Forall (avoids prot) ops) ->
   lsub s0 s ->
-  loop i rm dof vs srcs s err = (ops, e) ->
+  loop i rm dof vs own srcs s err = (ops, e) ->
   ((exists n, e = inr n) /\ (forall q, prot q -> run ops s q = s q)) \/
-  (exists opsA ops0 opsB r0,
+  (exists opsA ops0 opsB r0 i0,
      ops = opsA ++ ops0 ++ opsB /\
      (forall q, prot q -> run opsA s q = s q) /\ lsub s0 (run opsA s) /\
-     file_ops i rm (run opsA s) src0 d0 (vs src0) = (ops0, r0) /\
+     sim i i0 /\ file_ops i0 rm (run opsA s) src0 d0 (vs src0) = (ops0, r0) /\
      (forall q, prot q -> run ops s q = run (opsA ++ ops0) s q) /\
      (e = inl false -> r0 = FOk) /\ (forall b, e = inl b -> forall n, r0 <> FThrow n)).
 Proof.
   intros i rm dof vs s0 src0 d0 prot Hd0.
-  induction srcs as [|src tl IH]; intros s err ops e Hnd Hin Hav HL H; [contradiction Hin|].
+  induction srcs as [|src tl IH]; intros own s err ops e Hnd Hin Hav HL H; [contradiction Hin|].
   cbn [loop] in H. inversion Hnd as [|? ? Hnotin Hnd']; subst.
   destruct (path_eq_dec src src0) as [E|E].
   - (* the tracked source *)
     subst src. rewrite Hd0 in H.
-    destruct (file_ops i rm s src0 d0 (vs src0)) as [ops1 r] eqn:Ef.
+    destruct (file_ops (inv_for i own s src0 d0) rm s src0 d0 (vs src0)) as [ops1 r] eqn:Ef.
+    pose proof (inv_for_sim i own s src0 d0) as Hsim0.
     assert (Htl : forall src' d', In src' tl -> dof src' = Some d' ->
-              forall s' ops r, True -> lsub s0 s' -> file_ops i rm s' src' d' (vs src') = (ops, r) -> Forall (avoids prot) ops).
-    { intros a b Ha Hb s' o r' _ L Ef'. assert (Na : a <> src0) by (intro X; subst; contradiction).
-      exact (Hav a b (or_intror Ha) Na Hb s' o r' L Ef'). }
+              forall i' s' ops r, sim i i' -> True -> lsub s0 s' -> file_ops i' rm s' src' d' (vs src') = (ops, r) -> Forall (avoids prot) ops).
+    { intros a b Ha Hb i' s' o r' Hsim' _ L Ef'. assert (Na : a <> src0) by (intro X; subst; contradiction).
+      exact (Hav a b (or_intror Ha) Na Hb i' s' o r' Hsim' L Ef'). }
     right. destruct r as [| |n].
-    + destruct (loop i rm dof vs tl (run ops1 s) (err || is_fail FOk)) as [ops2 e2] eqn:El. inv_pair H.
-      destruct (loop_avoid_if i rm dof vs s0 prot (fun _ => True) (true_local prot) tl _ _ _ _ Htl I (lsub_run _ _ _ HL) El) as [_ [B2 _]].
-      exists [], ops1, ops2, FOk. cbn [app]. repeat split; try assumption; try reflexivity.
+    + destruct (loop i rm dof vs _ tl (run ops1 s) (err || is_fail FOk)) as [ops2 e2] eqn:El. inv_pair H.
+      destruct (loop_avoid_if i rm dof vs s0 prot (fun _ => True) (true_local prot) tl _ _ _ _ _ Htl I (lsub_run _ _ _ HL) El) as [_ [B2 _]].
+      exists [], ops1, ops2, FOk, (inv_for i own s src0 d0). cbn [app]. repeat split; try assumption; try reflexivity.
       * intros q Hq. rewrite run_app. apply B2. exact Hq.
       * intros b _ n X. discriminate X.
-    + destruct (loop i rm dof vs tl (run ops1 s) (err || is_fail FFail)) as [ops2 e2] eqn:El. inv_pair H.
-      destruct (loop_avoid_if i rm dof vs s0 prot (fun _ => True) (true_local prot) tl _ _ _ _ Htl I (lsub_run _ _ _ HL) El) as [_ [B2 _]].
-      exists [], ops1, ops2, FFail. cbn [app]. repeat split; try assumption; try reflexivity.
+    + destruct (loop i rm dof vs _ tl (run ops1 s) (err || is_fail FFail)) as [ops2 e2] eqn:El. inv_pair H.
+      destruct (loop_avoid_if i rm dof vs s0 prot (fun _ => True) (true_local prot) tl _ _ _ _ _ Htl I (lsub_run _ _ _ HL) El) as [_ [B2 _]].
+      exists [], ops1, ops2, FFail, (inv_for i own s src0 d0). cbn [app]. repeat split; try assumption; try reflexivity.
       * intros q Hq. rewrite run_app. apply B2. exact Hq.
       * intros X. subst e. apply loop_err_false in El. apply orb_false_iff in El. destruct El as [_ Y]. discriminate Y.
       * intros b _ n X. discriminate X.
     + assert (Eo : ops = ops1 /\ e = inr n) by (inversion H; split; reflexivity). destruct Eo as [Eo Ee]. subst ops e.
-      exists [], ops1, [], (FThrow n). cbn [app]. rewrite app_nil_r.
+      exists [], ops1, [], (FThrow n), (inv_for i own s src0 d0). cbn [app]. rewrite app_nil_r.
       repeat split; try assumption; try reflexivity; try (intros X; discriminate X). intros b X. discriminate X.
   - (* another source comes first *)
     destruct Hin as [Hin|Hin]; [contradiction|].
     assert (Hav' : forall src' d', In src' tl -> src' <> src0 -> dof src' = Some d' ->
-              forall s' ops r, lsub s0 s' -> file_ops i rm s' src' d' (vs src') = (ops, r) -> Forall (avoids prot) ops)
+              forall i' s' ops r, sim i i' -> lsub s0 s' -> file_ops i' rm s' src' d' (vs src') = (ops, r) -> Forall (avoids prot) ops)
       by (intros a b Ha; apply Hav; right; exact Ha).
     destruct (dof src) as [d|] eqn:Ed.
-    2:{ exact (IH s true ops e Hnd' Hin Hav' HL H). }
-    destruct (file_ops i rm s src d (vs src)) as [ops1 r] eqn:Ef.
-    pose proof (Hav src d (or_introl eq_refl) E Ed s ops1 r HL Ef) as Hav1.
+    2:{ exact (IH own s true ops e Hnd' Hin Hav' HL H). }
+    destruct (file_ops (inv_for i own s src d) rm s src d (vs src)) as [ops1 r] eqn:Ef.
+    pose proof (Hav src d (or_introl eq_refl) E Ed _ s ops1 r (inv_for_sim i own s src d) HL Ef) as Hav1.
     destruct (avoid_all_pref prot (fun _ => True) (true_local prot) ops1 s None I I Hav1) as [_ [A2 _]].
-    assert (Step : forall b, loop i rm dof vs tl (run ops1 s) b = (fst (loop i rm dof vs tl (run ops1 s) b), snd (loop i rm dof vs tl (run ops1 s) b)))
-      by (intros b; destruct (loop i rm dof vs tl (run ops1 s) b); reflexivity).
-    assert (Go : forall b ops2 e2, loop i rm dof vs tl (run ops1 s) b = (ops2, e2) -> ops = ops1 ++ ops2 -> e = e2 ->
+    assert (Go : forall own2 b ops2 e2, loop i rm dof vs own2 tl (run ops1 s) b = (ops2, e2) -> ops = ops1 ++ ops2 -> e = e2 ->
               ((exists n, e = inr n) /\ (forall q, prot q -> run ops s q = s q)) \/
-              (exists opsA ops0 opsB r0,
+              (exists opsA ops0 opsB r0 i0,
                  ops = opsA ++ ops0 ++ opsB /\
                  (forall q, prot q -> run opsA s q = s q) /\ lsub s0 (run opsA s) /\
-                 file_ops i rm (run opsA s) src0 d0 (vs src0) = (ops0, r0) /\
+                 sim i i0 /\ file_ops i0 rm (run opsA s) src0 d0 (vs src0) = (ops0, r0) /\
                  (forall q, prot q -> run ops s q = run (opsA ++ ops0) s q) /\
                  (e = inl false -> r0 = FOk) /\ (forall b, e = inl b -> forall n, r0 <> FThrow n))).
-    { intros b ops2 e2 El Eops Ee. subst ops e.
-      destruct (IH (run ops1 s) b ops2 e2 Hnd' Hin Hav' (lsub_run _ _ _ HL) El) as [[Hn Hf]|[opsA [ops0 [opsB [r0 [X1 [X2 [X3 [X4 [X5 [X6 X7]]]]]]]]]]].
+    { intros own2 b ops2 e2 El Eops Ee. subst ops e.
+      destruct (IH own2 (run ops1 s) b ops2 e2 Hnd' Hin Hav' (lsub_run _ _ _ HL) El) as [[Hn Hf]|[opsA [ops0 [opsB [r0 [i0 [X1 [X2 [X3 [Xs [X4 [X5 [X6 X7]]]]]]]]]]]]].
       - left. split; [exact Hn|]. intros q Hq. rewrite run_app. rewrite Hf by exact Hq. apply A2. exact Hq.
-      - right. exists (ops1 ++ opsA), ops0, opsB, r0. subst ops2.
+      - right. exists (ops1 ++ opsA), ops0, opsB, r0, i0. subst ops2.
         split; [rewrite <- app_assoc; reflexivity|].
         split; [intros q Hq; rewrite run_app; rewrite X2 by exact Hq; apply A2; exact Hq|].
         split; [rewrite run_app; exact X3|].
+        split; [exact Xs|].
         split; [rewrite run_app; exact X4|].
         split; [|split; assumption].
         intros q Hq. rewrite (run_app ops1). rewrite X5 by exact Hq. rewrite <- app_assoc. rewrite (run_app ops1). reflexivity. }
     destruct r as [| |n].
-    + destruct (loop i rm dof vs tl (run ops1 s) (err || is_fail FOk)) as [ops2 e2] eqn:El. inv_pair H.
-      exact (Go _ _ _ El eq_refl eq_refl).
-    + destruct (loop i rm dof vs tl (run ops1 s) (err || is_fail FFail)) as [ops2 e2] eqn:El. inv_pair H.
-      exact (Go _ _ _ El eq_refl eq_refl).
+    + destruct (loop i rm dof vs _ tl (run ops1 s) (err || is_fail FOk)) as [ops2 e2] eqn:El. inv_pair H.
+      exact (Go _ _ _ _ El eq_refl eq_refl).
+    + destruct (loop i rm dof vs _ tl (run ops1 s) (err || is_fail FFail)) as [ops2 e2] eqn:El. inv_pair H.
+      exact (Go _ _ _ _ El eq_refl eq_refl).
     + inv_pair H. left. split; [exists n; reflexivity|]. exact A2.
 Qed.
 
@@ -1900,19 +1937,19 @@ Qed.
 
 Lemma loop_throw_exit : forall i rm dof vs,
   (forall p, v_out (vs p) <> Throw 0) ->
-  forall srcs s err ops n, loop i rm dof vs srcs s err = (ops, inr n) -> exit_code ops = Some n /\ n <> 0.
+  forall srcs own s err ops n, loop i rm dof vs own srcs s err = (ops, inr n) -> exit_code ops = Some n /\ n <> 0.
 Proof.
-  intros i rm dof vs Hv. induction srcs as [|src tl IH]; intros s err ops n H; cbn [loop] in H; [inversion H|].
-  destruct (dof src) as [d|]; [|exact (IH _ _ _ _ H)].
-  destruct (file_ops i rm s src d (vs src)) as [ops1 r] eqn:Ef.
+  intros i rm dof vs Hv. induction srcs as [|src tl IH]; intros own s err ops n H; cbn [loop] in H; [inversion H|].
+  destruct (dof src) as [d|]; [|exact (IH _ _ _ _ _ H)].
+  destruct (file_ops (inv_for i own s src d) rm s src d (vs src)) as [ops1 r] eqn:Ef.
   destruct r as [| |m].
-  - destruct (loop i rm dof vs tl (run ops1 s) (err || is_fail FOk)) as [ops2 e2] eqn:El. inv_pair H.
-    destruct (IH _ _ _ _ El) as [A B]. split; [apply exit_code_app_r; exact A|exact B].
-  - destruct (loop i rm dof vs tl (run ops1 s) (err || is_fail FFail)) as [ops2 e2] eqn:El. inv_pair H.
-    destruct (IH _ _ _ _ El) as [A B]. split; [apply exit_code_app_r; exact A|exact B].
+  - destruct (loop i rm dof vs _ tl (run ops1 s) (err || is_fail FOk)) as [ops2 e2] eqn:El. inv_pair H.
+    destruct (IH _ _ _ _ _ El) as [A B]. split; [apply exit_code_app_r; exact A|exact B].
+  - destruct (loop i rm dof vs _ tl (run ops1 s) (err || is_fail FFail)) as [ops2 e2] eqn:El. inv_pair H.
+    destruct (IH _ _ _ _ _ El) as [A B]. split; [apply exit_code_app_r; exact A|exact B].
   - inversion H; subst. split; [exact (file_ops_throw_exit _ _ _ _ _ _ _ _ Ef)|].
     destruct (file_ops_throw_code _ _ _ _ _ _ _ _ Ef) as [X|X]; [|subst; discriminate].
-    intro Y. subst n. exact (codec_throw0 i d (vs src) (Hv src) X).
+    intro Y. subst n. exact (codec_throw0 _ d (vs src) (Hv src) X).
 Qed.
 
 (* several sources, each with its own destination (default names, -O): the final state of a source and of its
@@ -1935,14 +1972,14 @@ Theorem per_source_outcome_main : forall i names s0 vs, wf i names s0 -> is_conc
 Proof.
   intros i names s0 vs [Hnd [Hw2 [Hw3 [Hw4 Hw5]]]] Ec Hdc Hv0 src d f0 Hin Hd Hs Hart ops fin.
   subst ops fin. unfold fio_main. rewrite Hdc, Ec.
-  destruct (loop i (eff_rm i names) (dsel_of i names) vs names s0 false) as [ops e] eqn:El.
+  destruct (loop i (eff_rm i names) (dsel_of i names) vs [] names s0 false) as [ops e] eqn:El.
   assert (Ed0 : dsel_of i names src = Some (DOwn d)) by (apply dst_of_own; exact Hd).
   assert (Hp : src <> d) by (apply (Hw2 src src (DOwn d) d Hin Hin Ed0); reflexivity).
   assert (Hpl : is_lnk (s0 d) = false) by (apply (Hw4 src (DOwn d) d Hin Ed0 eq_refl)).
   assert (Hsegs : forall src' d', In src' names -> src' <> src -> dsel_of i names src' = Some d' ->
-            forall s' ops r, lsub s0 s' -> file_ops i (eff_rm i names) s' src' d' (vs src') = (ops, r) ->
+            forall i' s' ops r, sim i i' -> lsub s0 s' -> file_ops i' (eff_rm i names) s' src' d' (vs src') = (ops, r) ->
                              Forall (avoids (prot0 src (Some d))) ops).
-  { intros src' d' Hin' Hne' Ed' s' ops' r' HL Ef.
+  { intros src' d' Hin' Hne' Ed' i' s' ops' r' _ HL Ef.
     apply (seg_avoid_from_mod _ _ _ _ _ _ _ _ _ Ef).
     - intros _ _ [X|X]; [exact (Hne' X)|]. inversion X; subst d.
       exact (Hw2 src' src (DOwn src') src' Hin' Hin Ed0 eq_refl eq_refl).
@@ -1962,10 +1999,10 @@ Proof.
   { intros X. destruct e as [[|]|n]; try reflexivity.
     - cbn [exit_of] in X. rewrite exit_code_app_exit in X. discriminate X.
     - exfalso. cbn [exit_of] in X. rewrite app_nil_r in X.
-      destruct (loop_throw_exit i _ _ vs Hv0 _ _ _ _ _ El) as [A B]. rewrite A in X. inversion X. exact (B H0). }
+      destruct (loop_throw_exit i _ _ vs Hv0 _ _ _ _ _ _ El) as [A B]. rewrite A in X. inversion X. exact (B H0). }
   destruct (loop_track i (eff_rm i names) (dsel_of i names) vs s0 src (DOwn d) (prot0 src (Some d)) Ed0
-              names s0 false ops e Hnd Hin Hsegs (lsub_refl s0) El)
-    as [[[n En] Hf]|[opsA [ops0 [opsB [r0 [X1 [X2 [X3 [X4 [X5 [X6 X7]]]]]]]]]]].
+              names [] s0 false ops e Hnd Hin Hsegs (lsub_refl s0) El)
+    as [[[n En] Hf]|[opsA [ops0 [opsB [r0 [i0 [X1 [X2 [X3 [Xs [X4 [X5 [X6 X7]]]]]]]]]]]]].
   - (* never reached *)
     split.
     + left. split; apply Hf; [left; reflexivity|right; reflexivity].
@@ -1978,6 +2015,7 @@ Proof.
     assert (Fd : run ops s0 d = run ops0 s1 d) by (rewrite X5 by (right; reflexivity); rewrite run_app; reflexivity).
     rewrite Fs, Fd.
     pose proof (file_ops_outcome _ _ _ _ _ _ _ _ Hp Hpl1 Hart X4) as Ho.
+    rewrite (sim_codec_own i i0 d (vs src) Xs) in Ho.
     pose proof (file_ops_src_state _ _ _ _ _ _ _ _ Hp Hpl1 X4) as Hss.
     assert (Kept : r0 <> FOk -> run ops0 s1 src = s0 src).
     { intros Y. rewrite (file_ops_src_kept _ _ _ _ _ _ _ _ Hp Hpl1 X4 Y). exact S1s. }
@@ -1997,7 +2035,7 @@ Proof.
         -- right. left. exists chunks. split; [exact H1|]. split; [exact H2|]. left. rewrite H3. exact S1s.
     + intros X. apply Exit0 in X. specialize (X6 X). subst r0.
       destruct Ho as [[H1 H2]|[chunks [H1 [_ H3]]]].
-      * right. split; [exact (gate_skip_excl _ _ _ _ H2)|]. destruct (Nomod_d H1) as [A B]. split; assumption.
+      * right. split; [rewrite <- (sim_excl i i0 Xs); exact (gate_skip_excl _ _ _ _ H2)|]. destruct (Nomod_d H1) as [A B]. split; assumption.
       * left. exists chunks. split; assumption.
 Qed.
 
